@@ -381,9 +381,13 @@ static void dec_run(void)
 			VP_ASSERT(r == rn, "C42: decode_int_internal returned a wrong encoded size");
 			check_rest(0);
 #endif
+			#ifndef VP_NO_ACCEPT   /* (driver: the byte string is too short to hold any well-formed item) */
 			VP_WITNESS("C42 integer decoded");
+#endif
 		} else {
+			#ifndef VP_NO_REJECT   /* (driver: every byte string of this length starts with a well-formed item) */
 			VP_WITNESS("C42 integer rejected");
+#endif
 		}
 	}
 #elif DEC == DEC_TAG || DEC == DEC_PEEK
@@ -399,11 +403,13 @@ static void dec_run(void)
 			VP_ASSERT(r == r_a, "C42: tag decoder returned a wrong size");
 			VP_ASSERT(o == r_tag, "C42: tag decoder returned a wrong tag");
 			check_rest(DEC == DEC_TAG ? (size_t)r_a : 0);
-#ifndef KF_ONLY_TAG6    /* those inputs are never a well-formed tag */
+#if !defined(KF_ONLY_TAG6) && !defined(VP_NO_ACCEPT)    /* (KF inputs are never a well-formed tag) */
 			VP_WITNESS("C42 tag decoded");
 #endif
 		} else {
+			#ifndef VP_NO_REJECT   /* (driver: every byte string of this length starts with a well-formed item) */
 			VP_WITNESS("C42 tag rejected");
+#endif
 		}
 	}
 #elif DEC == DEC_PEEK_LENGTH || DEC == DEC_PAYLOAD_LENGTH
